@@ -863,7 +863,28 @@ pub fn gen_document(t: &mut Tape, schema: &mut Schema, cfg: &GenCfg) -> Document
                     .iter()
                     .filter(|f| f.ty.named == on && f.ty.can_terminate() && !keys.contains(&f.name) && key_scope.is_free(&f.name))
                     .collect();
-                if !cands.is_empty() {
+                // recursion closed inside an inline fragment on an abstract-typed field:
+                // `u { __typename ... on T { ...F } }`
+                let abs_cands: Vec<&FieldDef> = schema_ro.objects[oi]
+                    .fields
+                    .iter()
+                    .filter(|f| f.ty.named.is_abstract() && schema_ro.possible_types(f.ty.named).contains(&oi) && f.ty.can_terminate() && !keys.contains(&f.name) && key_scope.is_free(&f.name))
+                    .collect();
+                if !abs_cands.is_empty() && (cands.is_empty() || t.chance(50)) {
+                    let f = *t.pick(&abs_cands);
+                    let inner = if t.chance(60) {
+                        vec![Selection::Spread(name.clone())]
+                    } else {
+                        match schema_ro.objects[oi].fields.iter().find(|lf| !lf.ty.named.is_composite()) {
+                            Some(lf) => vec![Selection::Field(FieldSel { alias: Some("zzInner".into()), name: lf.name.clone(), args: vec![], sel: vec![] }), Selection::Spread(name.clone())],
+                            None => vec![Selection::Spread(name.clone())],
+                        }
+                    };
+                    // `zzInner` must not collide with a key of F itself (F is flattened next to it)
+                    let inner = if keys.contains("zzInner") { vec![Selection::Spread(name.clone())] } else { inner };
+                    let sub = vec![Selection::Typename, Selection::Inline { on: on_name.clone(), sel: inner }];
+                    sel.push(Selection::Field(FieldSel { alias: None, name: f.name.clone(), args: vec![], sel: sub }));
+                } else if !cands.is_empty() {
                     let f = *t.pick(&cands);
                     let mut sub = vec![Selection::Spread(name.clone())];
                     if t.chance(40) {
